@@ -89,18 +89,22 @@ pub struct DataCfg {
     pub exact: bool,
     /// INT cells (other than the key g) are mostly neighbours of 2^53 / 2^62: distinct integers that coincide as doubles
     pub big_ints: bool,
+    /// REAL cells are mostly +0.0 / -0.0 (equal as values, different as printed)
+    pub zeros: bool,
 }
 
 impl DataCfg {
     pub fn random(rng: &mut Rng, ncols: usize, hostile: bool) -> DataCfg {
         let rates = [0u32, 0, 100, 300, 600, 900];
-        DataCfg { null_rate: (0..ncols).map(|_| *rng.pick(&rates)).collect(), hostile, keys: 1 + rng.below(5), exact: true, big_ints: false }
+        DataCfg { null_rate: (0..ncols).map(|_| *rng.pick(&rates)).collect(), hostile, keys: 1 + rng.below(5), exact: true, big_ints: false, zeros: false }
     }
 }
 
 pub const TEXT_POOL: &[&str] = &["a", "b", "ab", "A", "abc", "b c", "Zz", "10", "x9", "\u{e5}b", "q",
     // case mappings that are not one character to one character, or depend on the position in the word
-    "\u{39f}\u{394}\u{39f}\u{3a3}", "Stra\u{df}e", "\u{130}x", "\u{1c5}", "\u{fb01}n"];
+    "\u{39f}\u{394}\u{39f}\u{3a3}", "Stra\u{df}e", "\u{130}x", "\u{1c5}", "\u{fb01}n",
+    // characters that matter to the statement tokenizer when the text is written as a literal: quotes, backslashes (also last), comment and statement marks
+    "it's", "C:\\logs\\", "a--b", "semi;colon", "say \"hi\"", "'quoted'", "\\"];
 pub const TS_POOL: &[&str] = &["2021-03-04 05:06:07", "2021-03-04 05:06:08", "2020-02-29 23:59:59", "1999-12-31 00:00:00", "2021-03-05 00:00:00", "2022-11-30 12:30:00"];
 pub const IV_POOL: &[&str] = &["0:00:00", "0:00:01", "1:02:03", "0:59:59", "24:00:00", "100:00:00", "0:01:00"];
 
@@ -118,6 +122,7 @@ pub fn std_cell(rng: &mut Rng, name: &str, ty: &Ty, cfg: &DataCfg, col_index: us
         }
         Ty::Real => {
             if cfg.hostile && rng.chance(1, 6) { Cell::Real(*rng.pick(&[1e308, -1e308, 0.0, 1e-300, 9007199254740993.0])) }
+            else if cfg.zeros && rng.chance(3, 4) { Cell::Real(if rng.chance(1, 2) { 0.0 } else { -0.0 }) }
             else if rng.chance(1, 16) { Cell::Real(-0.0) } // equal to 0.0 as a key, a group member and a join partner
             else { Cell::Real(rng.range(-24, 40) as f64 / 8.0) }
         }
@@ -436,7 +441,8 @@ pub fn gen_agg_call(rng: &mut Rng, s: &Schema, cfg: &ExprCfg, order_insensitive_
         6 => { let t = summable(rng); E::Agg("avg".into(), false, vec![agg_arg(rng, s, &t, cfg)]) }
         7 => { let t = num(rng); E::Agg(rng.pick(&["stddev", "variance"]).to_string(), false, vec![agg_arg(rng, s, &t, cfg)]) }
         8 | 9 => { let t = match rng.below(4) { 0 => Ty::Real, 1 => Ty::Text, _ => Ty::Int }; E::Agg("percentile".into(), false, vec![agg_arg(rng, s, &t, cfg), E::Real(*rng.pick(PERCENTILES))]) }
-        10 => E::Agg(rng.pick(&["bool_and", "bool_or"]).to_string(), false, vec![agg_arg(rng, s, &Ty::Bool, cfg)]),
+        // sometimes over a condition that has no value on some rows (division by a column that is 0 there)
+        10 => E::Agg(rng.pick(&["bool_and", "bool_or"]).to_string(), false, vec![if rng.chance(1, 3) { bin(*rng.pick(&[">=", "<", "="]), bin("/", int(120), col(&named(s, "i", &Ty::Int))), int(*rng.pick(&[10, 30, 60]))) } else { agg_arg(rng, s, &Ty::Bool, cfg) }]),
         11 => {
             // arithmetic wrapper around an aggregate
             let inner = E::Agg("sum".into(), false, vec![agg_arg(rng, s, &Ty::Int, cfg)]);
